@@ -287,11 +287,26 @@ Proof.
   destruct (Rle_lt_or_eq_dec 0 _ H2) as [Hp|Hz]; [exact Hp|]. rewrite <- Hz in Hv2. nra.
 Qed.
 
-Lemma unittwist_some thrS thrw S U : unittwist_m Rops thrS thrw S = Some U ->
-  exists th, twist_theta_m Rops thrS thrw S = Some th /\ U = vdiv6 Rops S th.
+Lemma irr_v_pos thrS thrw S : 0 < thrw <= thrS -> thrS <= norm6 Rops S -> norm3 Rops (tw_w S) < thrw ->
+  0 < norm3 Rops (tw_v S).
 Proof.
-  unfold unittwist_m. destruct (twist_theta_m Rops thrS thrw S) as [th|]; [|discriminate].
-  intros H; injection H as <-. exists th. split; reflexivity.
+  intros [H0 H1] HS Hw.
+  pose proof (norm6_sq S) as H6. rewrite dot6_split in H6.
+  pose proof (norm3_sq (tw_w S)) as Hw2. pose proof (norm3_sq (tw_v S)) as Hv2.
+  pose proof (norm3_nonneg (tw_w S)). pose proof (norm3_nonneg (tw_v S)) as Hv.
+  destruct (Rle_lt_or_eq_dec 0 _ Hv) as [Hp|Hz]; [exact Hp|]. rewrite <- Hz in Hv2. nra.
+Qed.
+
+Lemma unittwist_cases thrS thrw S U : unittwist_m Rops thrS thrw S = Some U ->
+  thrS <= norm6 Rops S /\
+  ((norm3 Rops (tw_w S) < thrw /\ U = vdiv6 Rops (v6 (tw_v S) (0,0,0)) (norm3 Rops (tw_v S))) \/
+   (thrw <= norm3 Rops (tw_w S) /\ U = vdiv6 Rops S (norm3 Rops (tw_w S)))).
+Proof.
+  unfold unittwist_m, twist_theta_m, twist_num_m. cbn [ltb zero Rops].
+  destruct (Rltb (norm6 Rops S) thrS) eqn:E; [discriminate|]. apply Rltb_false in E.
+  destruct (Rltb (norm3 Rops (tw_w S)) thrw) eqn:E2; intros H; injection H as <-.
+  - apply Rltb_true in E2. split; [lra|left; split; [exact E2|reflexivity]].
+  - apply Rltb_false in E2. split; [lra|right; split; [lra|reflexivity]].
 Qed.
 Lemma unittwist_none thrS thrw S : unittwist_m Rops thrS thrw S = None <-> norm6 Rops S < thrS.
 Proof.
@@ -303,36 +318,25 @@ Lemma unittwist_norm_agrees thrS thrw S :
   match unittwist_m Rops thrS thrw S, twist_theta_m Rops thrS thrw S with Some U, Some th => Some (U, th) | _, _ => None end.
 Proof. unfold unittwist_norm_m, unittwist_m. destruct (twist_theta_m Rops thrS thrw S); reflexivity. Qed.
 
-Lemma unittwist_direction thrS thrw S U : 0 < thrw <= thrS -> unittwist_m Rops thrS thrw S = Some U ->
-  exists k, 0 < k /\ U = (let '(a,b,c,d,e,f) := S in (k*a, k*b, k*c, k*d, k*e, k*f)).
-Proof.
-  intros Ht H. apply unittwist_some in H. destruct H as (th & Hth & ->).
-  pose proof (twist_theta_pos _ _ _ _ Ht Hth). exists (/ th). split; [apply Rinv_0_lt_compat; assumption|].
-  destruct_tuples. nm_simpl. tuple_eq ltac:(unfold Rdiv; ring).
-Qed.
-
 Lemma vdiv6_w S th : tw_w (vdiv6 Rops S th) = vdiv3 Rops (tw_w S) th.
 Proof. destruct_tuples. reflexivity. Qed.
 Lemma vdiv6_v S th : tw_v (vdiv6 Rops S th) = vdiv3 Rops (tw_v S) th.
+Proof. destruct_tuples. reflexivity. Qed.
+Lemma tw_v_v6 (a b : V3 R) : tw_v (v6 a b) = a.
+Proof. destruct_tuples. reflexivity. Qed.
+Lemma tw_w_v6 (a b : V3 R) : tw_w (v6 a b) = b.
+Proof. destruct_tuples. reflexivity. Qed.
+Lemma v6_parts (S : V6 R) : v6 (tw_v S) (tw_w S) = S.
 Proof. destruct_tuples. reflexivity. Qed.
 Lemma vdiv3_unit v : 0 < norm3 Rops v -> normsq3 Rops (vdiv3 Rops v (norm3 Rops v)) = 1.
 Proof.
   intros H. pose proof (norm3_sq v) as Hs. revert H Hs. generalize (norm3 Rops v). intros n H Hs.
   destruct_tuples. revert Hs. nm_simpl. intros Hs. apply div_unit3; assumption.
 Qed.
-
-(* the branch taken on the INPUT decides which part has unit norm *)
-Lemma unittwist_branch thrS thrw S U : 0 < thrw <= thrS -> unittwist_m Rops thrS thrw S = Some U ->
-  (thrw <= norm3 Rops (tw_w S) -> normsq3 Rops (tw_w U) = 1) /\
-  (norm3 Rops (tw_w S) < thrw -> normsq3 Rops (tw_v U) = 1).
-Proof.
-  intros Ht H. apply unittwist_some in H. destruct H as (th & Hth & ->).
-  pose proof (twist_theta_pos _ _ _ _ Ht Hth) as Hp.
-  apply twist_theta_some in Hth. destruct Hth as [HS [[Hw ->]|[Hw ->]]]; split; intros Hc; try lra.
-  - rewrite vdiv6_v. apply vdiv3_unit. exact Hp.
-  - rewrite vdiv6_w. apply vdiv3_unit. exact Hp.
-Qed.
-
+Lemma vdiv3_zero th : vdiv3 Rops (0,0,0) th = (0,0,0).
+Proof. nm_simpl. tuple_eq ltac:(unfold Rdiv; ring). Qed.
+Lemma vdiv3_scale v th : vdiv3 Rops v th = vscale3 Rops (/ th) v.
+Proof. destruct_tuples. nm_simpl. tuple_eq ltac:(unfold Rdiv; ring). Qed.
 Lemma vdiv6_one S : vdiv6 Rops S 1 = S.
 Proof. destruct_tuples. nm_simpl. tuple_eq ltac:(field). Qed.
 Lemma norm6_ge_w S : norm3 Rops (tw_w S) <= norm6 Rops S.
@@ -348,13 +352,32 @@ Proof.
   pose proof (norm3_nonneg (tw_v S)). pose proof (norm6_nonneg S). nra.
 Qed.
 
-(* a valid unit twist (in the sense of the code: unit rotational part, or rotational part below the
-   threshold and unit translational part) is returned unchanged *)
+(* rotational input (|w| >= thr): unit rotational part, positive multiple of the whole twist;
+   irrotational input (|w| < thr): unit translational part, a positive multiple of v, rotational part EXACTLY zero *)
+Lemma unittwist_parts thrS thrw S U : 0 < thrw <= thrS -> unittwist_m Rops thrS thrw S = Some U ->
+  (thrw <= norm3 Rops (tw_w S) ->
+     normsq3 Rops (tw_w U) = 1 /\
+     exists k, 0 < k /\ U = (let '(a,b,c,d,e,f) := S in (k*a, k*b, k*c, k*d, k*e, k*f))) /\
+  (norm3 Rops (tw_w S) < thrw ->
+     normsq3 Rops (tw_v U) = 1 /\ tw_w U = (0,0,0) /\ exists k, 0 < k /\ tw_v U = vscale3 Rops k (tw_v S)).
+Proof.
+  intros Ht H. apply unittwist_cases in H. destruct H as [HS [[Hw ->]|[Hw ->]]]; split; intros Hc; try lra.
+  - pose proof (irr_v_pos _ _ _ Ht HS Hw) as Hp. rewrite vdiv6_v, vdiv6_w, tw_v_v6, tw_w_v6. split; [|split].
+    + apply vdiv3_unit. exact Hp.
+    + apply vdiv3_zero.
+    + exists (/ norm3 Rops (tw_v S)). split; [apply Rinv_0_lt_compat; exact Hp|apply vdiv3_scale].
+  - assert (Hp : 0 < norm3 Rops (tw_w S)) by lra. split.
+    + rewrite vdiv6_w. apply vdiv3_unit. exact Hp.
+    + exists (/ norm3 Rops (tw_w S)). split; [apply Rinv_0_lt_compat; exact Hp|].
+      generalize (norm3 Rops (tw_w S)). intros n. destruct_tuples. nm_simpl. tuple_eq ltac:(unfold Rdiv; ring).
+Qed.
+
+(* a unit twist (unit rotational part; or rotational part exactly zero and unit translational part) is returned unchanged *)
 Lemma unittwist_fixed thrS thrw S : 0 < thrw <= thrS -> thrS <= 1 ->
-  normsq3 Rops (tw_w S) = 1 \/ (norm3 Rops (tw_w S) < thrw /\ normsq3 Rops (tw_v S) = 1) ->
+  normsq3 Rops (tw_w S) = 1 \/ (tw_w S = (0,0,0) /\ normsq3 Rops (tw_v S) = 1) ->
   unittwist_m Rops thrS thrw S = Some S.
 Proof.
-  intros [H0 H1] H2 H. unfold unittwist_m, twist_theta_m. cbn [ltb Rops].
+  intros [H0 H1] H2 H. unfold unittwist_m, twist_theta_m, twist_num_m. cbn [ltb zero Rops].
   pose proof (norm6_ge_w S). pose proof (norm6_ge_v S).
   destruct H as [Hw|[Hw Hv]].
   - apply norm3_of_unit in Hw.
@@ -363,59 +386,24 @@ Proof.
     rewrite Hw, vdiv6_one. reflexivity.
   - apply norm3_of_unit in Hv.
     assert (E : Rltb (norm6 Rops S) thrS = false) by (apply Rltb_false; lra). rewrite E.
-    assert (E2 : Rltb (norm3 Rops (tw_w S)) thrw = true) by (apply Rltb_true; lra). rewrite E2.
-    rewrite Hv, vdiv6_one. reflexivity.
+    assert (E2 : Rltb (norm3 Rops (tw_w S)) thrw = true) by (apply Rltb_true; rewrite Hw, norm3_zero; lra). rewrite E2.
+    rewrite Hv, vdiv6_one. rewrite <- Hw. rewrite v6_parts. reflexivity.
 Qed.
 
-Lemma vdiv3_zero th : vdiv3 Rops (0,0,0) th = (0,0,0).
-Proof. nm_simpl. tuple_eq ltac:(unfold Rdiv; ring). Qed.
-
-(* validity / idempotence hold when the rotational part is above the threshold or EXACTLY zero *)
-Lemma unittwist_valid_partial thrS thrw S U : 0 < thrw <= thrS -> thrS <= 1 ->
+(* FULL STRENGTH (since fix 3bd9c1c): every result is a unit twist by the library's own test and a fixed point *)
+Lemma unittwist_valid_idem thrS thrw S U : 0 < thrw <= thrS -> thrS <= 1 ->
   unittwist_m Rops thrS thrw S = Some U ->
-  thrw <= norm3 Rops (tw_w S) \/ tw_w S = (0,0,0) ->
   unit_twist_spec thrw U /\ unittwist_m Rops thrS thrw U = Some U.
 Proof.
-  intros Ht H1 H Hc. pose proof (unittwist_branch _ _ _ _ Ht H) as [Hb1 Hb2].
-  assert (Hfix : normsq3 Rops (tw_w U) = 1 \/ (norm3 Rops (tw_w U) < thrw /\ normsq3 Rops (tw_v U) = 1)).
-  { destruct Hc as [Hc|Hc]; [left; auto|right].
-    assert (Hlt : norm3 Rops (tw_w S) < thrw) by (rewrite Hc, norm3_zero; lra).
-    split; [|auto]. apply unittwist_some in H. destruct H as (th & _ & ->).
-    rewrite vdiv6_w, Hc, vdiv3_zero, norm3_zero. lra. }
+  intros Ht H1 H. destruct (unittwist_parts _ _ _ _ Ht H) as [Hr Hi].
+  assert (Hfix : normsq3 Rops (tw_w U) = 1 \/ (tw_w U = (0,0,0) /\ normsq3 Rops (tw_v U) = 1)).
+  { destruct (Rle_or_lt thrw (norm3 Rops (tw_w S))) as [Hc|Hc].
+    - left. apply Hr. exact Hc.
+    - right. destruct (Hi Hc) as (A & B & _). split; assumption. }
   split; [|apply unittwist_fixed; assumption].
   unfold unit_twist_spec. destruct Hfix as [Hw|[Hw Hv]].
   - split; [intros; exact Hw|]. apply norm3_of_unit in Hw. lra.
-  - split; [lra|intros; exact Hv].
-Qed.
-
-(* ... and FAIL for a rotational part that is below the threshold but not zero: it is scaled by 1/|v| *)
-Lemma unittwist_subthreshold_refuted thrS thrw : 0 < thrw <= thrS -> thrS <= 1/2 ->
-  exists S U, unittwist_m Rops thrS thrw S = Some U /\ ~ unit_twist_spec thrw U /\ unittwist_m Rops thrS thrw U <> Some U.
-Proof.
-  intros [H0 H1] H2. set (e := thrw * (3/4)).
-  assert (Hn : forall x, 0 <= x -> norm3 Rops (x,0,0) = x).
-  { intros x Hx. nm_simpl. replace (x*x+0*0+0*0) with (x*x) by ring. apply sqrt_square. exact Hx. }
-  assert (Hn6 : forall x y, 0 <= x -> 0 <= y -> x <= norm6 Rops (x,0,0,y,0,0)).
-  { intros x y Hx Hy. pose proof (norm6_ge_v (x,0,0,y,0,0)) as G. cbn [tw_v] in G. rewrite (Hn x Hx) in G. exact G. }
-  exists (1/2,0,0,e,0,0), (1,0,0,2*e,0,0).
-  assert (E1 : unittwist_m Rops thrS thrw (1/2,0,0,e,0,0) = Some (1,0,0,2*e,0,0)).
-  { unfold unittwist_m, twist_theta_m. cbn [ltb Rops tw_w tw_v].
-    assert (E : Rltb (norm6 Rops (1/2,0,0,e,0,0)) thrS = false).
-    { apply Rltb_false. pose proof (Hn6 (1/2) e). unfold e in *. lra. }
-    rewrite E. rewrite (Hn e) by (unfold e; lra).
-    assert (E2 : Rltb e thrw = true) by (apply Rltb_true; unfold e; lra). rewrite E2.
-    rewrite (Hn (1/2)) by lra. f_equal. nm_simpl. tuple_eq ltac:(field). }
-  split; [exact E1|]. split.
-  - intros [G _]. cbn [tw_w] in G. rewrite (Hn (2*e)) in G by (unfold e; lra).
-    specialize (G ltac:(unfold e; lra)). revert G. nm_simpl. unfold e. intros G. nra.
-  - unfold unittwist_m, twist_theta_m. cbn [ltb Rops tw_w tw_v].
-    assert (E : Rltb (norm6 Rops (1,0,0,2*e,0,0)) thrS = false).
-    { apply Rltb_false. pose proof (Hn6 1 (2*e)). unfold e in *. lra. }
-    rewrite E. rewrite (Hn (2*e)) by (unfold e; lra).
-    assert (E2 : Rltb (2*e) thrw = false) by (apply Rltb_false; unfold e; lra). rewrite E2.
-    intros G. injection G as G _. revert G. nm_simpl. unfold e. intros G.
-    assert (2 * (thrw * (3/4)) <> 0) by lra. apply (f_equal (fun z => z * (2 * (thrw * (3/4))))) in G.
-    field_simplify in G; lra.
+  - split; [rewrite Hw, norm3_zero; lra|intros; exact Hv].
 Qed.
 
 (* ------------------------------------------------------------------ unittwist2 *)
@@ -428,81 +416,56 @@ Proof.
   intros H. nm_simpl. apply sqrt_lt_R0.
   destruct (Req_dec v0 0) as [->|H0]; [|nra]. destruct (Req_dec v1 0) as [->|H1]; [|nra]. congruence.
 Qed.
-Lemma twist2_theta_cases thrw v0 v1 w :
-  (Rabs w < thrw /\ twist2_theta_m Rops thrw (v0,v1,w) = norm2 Rops (v0,v1)) \/
-  (thrw <= Rabs w /\ twist2_theta_m Rops thrw (v0,v1,w) = Rabs w).
+Lemma unittwist2_cases thrw v0 v1 w :
+  (Rabs w < thrw /\ unittwist2_m Rops thrw (v0,v1,w) =
+      (v0 / norm2 Rops (v0,v1), v1 / norm2 Rops (v0,v1), 0 / norm2 Rops (v0,v1))) \/
+  (thrw <= Rabs w /\ unittwist2_m Rops thrw (v0,v1,w) = (v0 / Rabs w, v1 / Rabs w, w / Rabs w)).
 Proof.
-  unfold twist2_theta_m. cbn [ltb abs_ Rops]. destruct (Rltb (Rabs w) thrw) eqn:E.
+  unfold unittwist2_m, twist2_theta_m, twist2_num_m. cbn [ltb abs_ zero Rops]. destruct (Rltb (Rabs w) thrw) eqn:E.
   - apply Rltb_true in E. left. split; [exact E|reflexivity].
   - apply Rltb_false in E. right. split; [lra|reflexivity].
 Qed.
-Lemma unittwist2_branch thrw v0 v1 w : 0 < thrw ->
+Lemma Rabs_sq w : Rabs w * Rabs w = w * w.
+Proof. unfold Rabs; destruct (Rcase_abs w); ring. Qed.
+Lemma unittwist2_parts thrw v0 v1 w : 0 < thrw ->
   let '(u0,u1,x) := unittwist2_m Rops thrw (v0,v1,w) in
-  (thrw <= Rabs w -> x*x = 1) /\ (Rabs w < thrw -> (v0,v1) <> (0,0) -> u0*u0+u1*u1 = 1).
+  (thrw <= Rabs w -> x*x = 1 /\ exists k, 0 < k /\ (u0,u1,x) = (k*v0, k*v1, k*w)) /\
+  (Rabs w < thrw -> (v0,v1) <> (0,0) -> u0*u0+u1*u1 = 1 /\ x = 0 /\ exists k, 0 < k /\ (u0,u1) = (k*v0, k*v1)).
 Proof.
-  intros Ht. unfold unittwist2_m. destruct (twist2_theta_cases thrw v0 v1 w) as [[Hc ->]|[Hc ->]]; cbn [vdiv3 div Rops].
-  - split; [lra|]. intros _ Hv. apply div_unit2; [apply norm2_pos; exact Hv|apply norm2_sq].
-  - split; [|lra]. intros _. assert (Rabs w * Rabs w = w * w) by (unfold Rabs; destruct (Rcase_abs w); ring).
-    field_simplify_eq; [nra|lra].
-Qed.
-Lemma unittwist2_direction thrw v0 v1 w : 0 < thrw -> thrw <= Rabs w \/ (v0,v1) <> (0,0) ->
-  exists k, 0 < k /\ unittwist2_m Rops thrw (v0,v1,w) = (k*v0, k*v1, k*w).
-Proof.
-  intros Ht Hg. exists (/ twist2_theta_m Rops thrw (v0,v1,w)). split.
-  - apply Rinv_0_lt_compat. destruct (twist2_theta_cases thrw v0 v1 w) as [[Hc ->]|[Hc ->]]; [|lra].
-    destruct Hg as [Hg|Hg]; [lra|apply norm2_pos; exact Hg].
-  - unfold unittwist2_m. generalize (twist2_theta_m Rops thrw (v0, v1, w)). intros th. nm_simpl.
-    tuple_eq ltac:(unfold Rdiv; ring).
+  intros Ht. destruct (unittwist2_cases thrw v0 v1 w) as [[Hc ->]|[Hc ->]].
+  - split; [lra|]. intros _ Hv. pose proof (norm2_pos _ _ Hv) as Hp. split; [|split].
+    + apply div_unit2; [exact Hp|apply norm2_sq].
+    + unfold Rdiv. ring.
+    + exists (/ norm2 Rops (v0,v1)). split; [apply Rinv_0_lt_compat; exact Hp|]. unfold Rdiv. tuple_eq ltac:(ring).
+  - split; [|lra]. intros _. assert (Hp : 0 < Rabs w) by lra. pose proof (Rabs_sq w) as Hs. split.
+    + field_simplify_eq; [nra|lra].
+    + exists (/ Rabs w). split; [apply Rinv_0_lt_compat; exact Hp|]. unfold Rdiv. tuple_eq ltac:(ring).
 Qed.
 Lemma unittwist2_fixed thrw v0 v1 w : 0 < thrw <= 1 ->
-  w*w = 1 \/ (Rabs w < thrw /\ v0*v0+v1*v1 = 1) -> unittwist2_m Rops thrw (v0,v1,w) = (v0,v1,w).
+  w*w = 1 \/ (w = 0 /\ v0*v0+v1*v1 = 1) -> unittwist2_m Rops thrw (v0,v1,w) = (v0,v1,w).
 Proof.
-  intros [H0 H1] H. unfold unittwist2_m.
-  assert (Hth : twist2_theta_m Rops thrw (v0,v1,w) = 1).
-  { destruct (twist2_theta_cases thrw v0 v1 w) as [[Hc ->]|[Hc ->]]; destruct H as [H|[H H']].
-    - assert (Rabs w = 1) by (unfold Rabs in *; destruct (Rcase_abs w); nra). lra.
-    - nm_simpl. apply sqrt_eq_1. exact H'.
-    - unfold Rabs; destruct (Rcase_abs w); nra.
-    - lra. }
-  rewrite Hth. nm_simpl. tuple_eq ltac:(field).
+  intros [H0 H1] H. destruct (unittwist2_cases thrw v0 v1 w) as [[Hc ->]|[Hc ->]]; destruct H as [H|[H H']].
+  - assert (Rabs w = 1) by (unfold Rabs in *; destruct (Rcase_abs w); nra). lra.
+  - assert (Hn : norm2 Rops (v0,v1) = 1) by (nm_simpl; apply sqrt_eq_1; exact H'). rewrite Hn, H.
+    tuple_eq ltac:(field).
+  - assert (Ha : Rabs w = 1) by (unfold Rabs in *; destruct (Rcase_abs w); nra). rewrite Ha. tuple_eq ltac:(field).
+  - rewrite H, Rabs_R0 in Hc. lra.
 Qed.
-Lemma unittwist2_valid_partial thrw v0 v1 w : 0 < thrw <= 1 ->
-  thrw <= Rabs w \/ (w = 0 /\ (v0,v1) <> (0,0)) ->
+(* FULL STRENGTH (since fix 3bd9c1c), for every input the code can normalise (|w| >= thr or v <> 0) *)
+Lemma unittwist2_valid_idem thrw v0 v1 w : 0 < thrw <= 1 ->
+  thrw <= Rabs w \/ (v0,v1) <> (0,0) ->
   unit_twist2_spec thrw (unittwist2_m Rops thrw (v0,v1,w)) /\
   unittwist2_m Rops thrw (unittwist2_m Rops thrw (v0,v1,w)) = unittwist2_m Rops thrw (v0,v1,w).
 Proof.
-  intros Ht Hc. pose proof (unittwist2_branch thrw v0 v1 w ltac:(lra)) as Hb.
-  destruct (unittwist2_m Rops thrw (v0,v1,w)) as [[u0 u1] x] eqn:EU. destruct Hb as [Hb1 Hb2].
-  assert (Hfix : x*x = 1 \/ (Rabs x < thrw /\ u0*u0+u1*u1 = 1)).
-  { destruct Hc as [Hc|[-> Hv]]; [left; auto|right].
-    assert (Hlt : Rabs 0 < thrw) by (rewrite Rabs_R0; lra). split; [|auto].
-    unfold unittwist2_m in EU. cbn [vdiv3 div Rops] in EU. injection EU as _ _ <-.
-    unfold Rdiv. rewrite Rmult_0_l, Rabs_R0. lra. }
+  intros Ht Hc. pose proof (unittwist2_parts thrw v0 v1 w ltac:(lra)) as Hb.
+  destruct (unittwist2_m Rops thrw (v0,v1,w)) as [[u0 u1] x]. destruct Hb as [Hb1 Hb2].
+  assert (Hfix : x*x = 1 \/ (x = 0 /\ u0*u0+u1*u1 = 1)).
+  { destruct (Rle_or_lt thrw (Rabs w)) as [Hw|Hw]; [left; apply Hb1; exact Hw|right].
+    destruct Hc as [Hc|Hc]; [lra|]. destruct (Hb2 Hw Hc) as (A & B & _). split; assumption. }
   split; [|apply unittwist2_fixed; assumption].
   unfold unit_twist2_spec. destruct Hfix as [Hw|[Hw Hv]].
   - split; [intros; exact Hw|]. assert (Rabs x = 1) by (unfold Rabs in *; destruct (Rcase_abs x); nra). lra.
-  - split; [lra|intros; exact Hv].
-Qed.
-Lemma unittwist2_subthreshold_refuted thrw : 0 < thrw <= 1/2 ->
-  exists S, ~ unit_twist2_spec thrw (unittwist2_m Rops thrw S) /\
-            unittwist2_m Rops thrw (unittwist2_m Rops thrw S) <> unittwist2_m Rops thrw S.
-Proof.
-  intros [H0 H1]. set (e := thrw * (3/4)). exists (1/2, 0, e).
-  assert (Hn : norm2 Rops (1/2,0) = 1/2).
-  { nm_simpl. replace (1/2*(1/2)+0*0) with ((1/2)*(1/2)) by ring. apply sqrt_square. lra. }
-  assert (Ae : Rabs e = e) by (apply Rabs_pos_eq; unfold e; lra).
-  assert (A2e : Rabs (2*e) = 2*e) by (apply Rabs_pos_eq; unfold e; lra).
-  assert (E1 : unittwist2_m Rops thrw (1/2,0,e) = (1,0,2*e)).
-  { unfold unittwist2_m. destruct (twist2_theta_cases thrw (1/2) 0 e) as [[Hc ->]|[Hc ->]].
-    - rewrite Hn. nm_simpl. tuple_eq ltac:(field).
-    - rewrite Ae in Hc. unfold e in Hc. lra. }
-  rewrite E1. split.
-  - intros [G _]. rewrite A2e in G. specialize (G ltac:(unfold e; lra)). unfold e in G. nra.
-  - unfold unittwist2_m. destruct (twist2_theta_cases thrw 1 0 (2*e)) as [[Hc ->]|[Hc ->]].
-    + rewrite A2e in Hc. unfold e in Hc. lra.
-    + rewrite A2e. nm_simpl. intros G. injection G as G _ _. unfold e in G.
-      assert (2 * (thrw * (3/4)) <> 0) by lra. apply (f_equal (fun z => z * (2 * (thrw * (3/4))))) in G.
-      field_simplify in G; lra.
+  - split; [rewrite Hw, Rabs_R0; lra|intros; exact Hv].
 Qed.
 
 (* ------------------------------------------------------------------ angdiff *)
